@@ -22,7 +22,7 @@ def grids(c, v, tier):
             if c == 3:      # Mantis vec128: each point costs 20 s - 5 min even at 0 rounds (measured), so the quick grid is small
                 cand = [(B, 1), (B, blk + 1), (B - 1, 2), (1, blk), (blk, B - blk), (B - blk - 1, blk + 2), (0, 0), (B, B + 1)]
             else:
-                cand = [(o, n) for o in (0, 1, blk, B - blk - 1, B - 1, B) for n in (0, 1, blk + 1, B - o, B - o + 1, B + 1, 2 * B + 1)]
+                cand = [(o, n) for o in (0, 1, B - blk - 1, B) for n in (0, 1, blk + 1, B - o, B - o + 1, B + 1, 2 * B + 1)]
             for (o, n) in cand:
                 if n >= 0 and (o, n) not in pts: pts.append((o, n))
     return blk, lanes, B, pts
@@ -75,7 +75,7 @@ def plan(tier):
         functions=['{skinny128,skinny64,mantis}_ctr_encrypt / _set_counter dispatchers', '*_ctr_def_{init,set_counter,encrypt}', 'skinny128_ctr_vec128_*, skinny128_ctr_vec256_*, skinny64_ctr_vec128_*, mantis_ctr_vec128_* (clang IR)',
                    'skinny*_inc_counter, *_ctr_increment, skinny*_xor, skinny_xor, *_ecb_encrypt_four/eight'],
         bounds={'method': 'one inductive step from an arbitrary invariant state per (offset, size) point; split independence for every finite call sequence follows by induction over calls (meta-step)',
-                'grid': 'quick: generic o in {0,1,blk/2,blk-1,blk} x n in {0,1,blk-1,blk,blk+1,2blk,2blk+1}; vec o in {0,1,blk,B-blk-1,B-1,B} x n in {0,1,blk+1,B-o,B-o+1,B+1,2B+1}; thorough: generic all o x all n <= 3 blk, vec all o x n in 0..2blk+1 and around B, 2B',
+                'grid': 'quick: generic o in {0,1,blk/2,blk-1,blk} x n in {0,1,blk-1,blk,blk+1,2blk,2blk+1}; vec o in {0,1,B-blk-1,B} x n in {0,1,blk+1,B-o,B-o+1,B+1,2B+1} plus three in-place pieces longer than half a batch; thorough: generic all o x all n <= 3 blk, vec all o x n in 0..2blk+1 and around B, 2B',
                 'rounds': 'grid at 1 round with an arbitrary schedule (the glue code never looks at the round count); selected points at full depth (56/40/8 rounds)', 'counter': 'fully symbolic (every carry chain, wrap from 2^n-1)',
                 'sizes above 2B+blk': 'outside: they repeat the full-batch loop body'},
         outside=['key/tweak change in mid-stream (C06 states it)', 'dispatch from init (C13)'],
